@@ -57,7 +57,7 @@ CONTRACTS['modularity_finetune_und'] = Contract(
     },
     ghost_after={
         "ci += 1#0": "ci0 = snapshot(ci); assume(lemma_relabel(W, ci, arg('ci'), gamma, n))",
-        "km = np.sum(knm, axis=0)": "assume(lemma_modularity(W, ci, n), lemma_knm_sums(knm, W, ci, n, 'out'))",
+        "flag = True#0": "assume(lemma_modularity(W, ci, n), lemma_knm_sums(knm, W, ci, n, 'out'))",
         "ma = ci[u] - 1": LEMMAS_UND,
         "mb = np.argmax(dq)": "check('argmax-attains-max', dq[mb] == max_dq); check('move-changes-module', mb != ma); "
                               "check('gain-is-the-lemma-expression', dq[mb] == (modsum(W, ci, u, mb, n) - modsum(W, ci, u, ma, n) + W[u, u]) - gamma * rsum(W, u, n) * (degsum(W, ci, mb, n) - degsum(W, ci, ma, n) + rsum(W, u, n)) / s)",
@@ -74,3 +74,43 @@ CONTRACTS['modularity_finetune_und'] = Contract(
         ('C02-every-label-1..k-used', "forall(lambda l: implies(And(l >= 1, l <= m), And(inr(unique_witness(l - 1), n0), result(0)[unique_witness(l - 1)] == l)))"),
         ('arguments-untouched', "And(unchanged('W'), unchanged('ci'))"),
     ])
+
+
+# ---- modularity_finetune_dir ----------------------------------------------------------------------------------------------------
+REQ_DIR = [('positive-total-weight', "tsum(W, n0) > 0")]
+KINV_DIR = [
+    ('K1o-node-to-module-out-sums', RNG % "knm_o[x, m] == modsum(W, ci, x, m, n)"),
+    ('K1i-node-to-module-in-sums', RNG % "knm_i[x, m] == modsumT(W, ci, x, m, n)"),
+    ('K2-node-degrees', "forall(lambda x: implies(inr(x, n), And(k_o[x] == rsum(W, x, n), k_i[x] == csum(W, x, n))))"),
+    ('K3-module-degrees', "forall(lambda m: implies(inr(m, n), And(km_o[m] == degsum(W, ci, m, n), km_i[m] == degsumT(W, ci, m, n))))"),
+    ('LAB-labels-in-range', "forall(lambda y: implies(inr(y, n), And(ci[y] >= 1, ci[y] <= n)))"),
+    ('QMONO-never-below-start', "Qmod(W, ci, gamma, n) >= Qmod(W, ci0, gamma, n)"),
+    ('S-total', "And(s == tsum(W, n), n == n0)"),
+    ('FRAME-arguments-untouched', "And(unchanged('W'), unchanged('ci'))"),
+]
+CONTRACTS['modularity_finetune_dir'] = Contract(
+    MOD, 'modularity_finetune_dir', ['W', 'ci', 'gamma', 'seed'], setup=_setup(), requires=REQ_DIR, nonlinear='uf',
+    loops={
+        'for m in range(np.max(ci))': {'name': 'init', 'inv': [
+            ('INIT-columns-done', "forall(lambda x, mm: implies(And(inr(x, n), mm >= 0, mm < _it), And(knm_o[x, mm] == modsum(W, ci, x, mm, n), knm_i[x, mm] == modsumT(W, ci, x, mm, n))))"),
+            ('INIT-columns-todo', "forall(lambda x, mm: implies(And(inr(x, n), mm >= _it, mm < n), And(knm_o[x, mm] == 0, knm_i[x, mm] == 0)))")]},
+        'while flag': {'name': 'sweeps', 'inv': KINV_DIR},
+        'for u in rng.permutation(n)': {'name': 'moves', 'inv': KINV_DIR},
+        'for u in range(m)': {'name': 'agg-rows', 'inv': [('AGG-done-rows', "forall(lambda a, b: implies(And(inr(a, m), inr(b, m), a < _it), w[a, b] == agg(W, ci, a, b, n)))")]},
+        'for v in range(m)': {'name': 'agg-cells', 'inv': [
+            ('AGG-done-rows', "forall(lambda a, b: implies(And(inr(a, m), inr(b, m), a < u), w[a, b] == agg(W, ci, a, b, n)))"),
+            ('AGG-current-row', "forall(lambda b: implies(And(inr(b, m), b < _it), w[u, b] == agg(W, ci, u, b, n)))"), ('u-in-range', 'inr(u, m)')]},
+    },
+    ghost_after={
+        "ci += 1#0": "ci0 = snapshot(ci); assume(lemma_relabel(W, ci, arg('ci'), gamma, n))",
+        "flag = True#0": "assume(lemma_modularity(W, ci, n), lemma_knm_sums(knm_o, W, ci, n, 'out'), lemma_knm_sums(knm_i, W, ci, n, 'in'))",
+        "ma = ci[u] - 1": "assume(lemma_modularity(W, ci, n))",
+        "mb = np.argmax(dq)": "check('argmax-attains-max', dq[mb] == max_dq); check('move-changes-module', mb != ma); "
+                              "check('gain-is-the-lemma-expression', 2 * dq[mb] == "
+                              "((modsum(W, ci, u, mb, n) - modsum(W, ci, u, ma, n) + W[u, u]) - gamma * rsum(W, u, n) * (degsumT(W, ci, mb, n) - degsumT(W, ci, ma, n) + csum(W, u, n)) / s) + "
+                              "((modsumT(W, ci, u, mb, n) - modsumT(W, ci, u, ma, n) + W[u, u]) - gamma * csum(W, u, n) * (degsum(W, ci, mb, n) - degsum(W, ci, ma, n) + rsum(W, u, n)) / s))",
+        "ci += 1#1": "assume(lemma_relabel(W, ci, ci_before_final, gamma, n))",
+    },
+    ghost_before={"_, ci = np.unique(ci, return_inverse=True)#1": "ci_before_final = snapshot(ci)",
+                  "return (ci, q)": "assume(lemma_q_from_aggregate(w, lam2(lambda a, b: w[a, b] / s, m), W, ci, gamma, s, m, n))"},
+    ensures=CONTRACTS['modularity_finetune_und'].ensures)
